@@ -3,7 +3,7 @@
 /tmp/seedout/<ID>/<v>/ apply patch in the scratch worktree /tmp/seed/<ID>, run the pinned
 suite (39 pass, 1 known failure), run the demo (must fail), revert, run demo (must pass)."""
 import json, os, subprocess, sys, re, shutil
-OUT='/tmp/seedout'
+OUT=os.environ.get('SEED_OUT','/tmp/seedout'); WT=os.environ.get('SEED_WT','/tmp/seed')
 def sh(cmd, cwd, timeout=3000):
     p=subprocess.run(cmd, shell=True, cwd=cwd, capture_output=True, text=True, timeout=timeout)
     return p.returncode, p.stdout+p.stderr
@@ -16,7 +16,7 @@ def suite(wt):
 def main(ids):
     res={}
     for ID in ids:
-        wt=f'/tmp/seed/{ID}'
+        wt=f'{WT}/{ID}'
         for v in ('a','b'):
             d=f'{OUT}/{ID}/{v}'
             if not os.path.exists(d+'/patch.diff'): continue
